@@ -116,7 +116,9 @@ pub(crate) fn mk_ax_n(nxmm: usize) -> Axecutor {
         hooks: HookProcessor::default(),
         symbol_table: HashMap::new(),
         state: MachineState {
-            memory: Vec::new(),
+            // capacity reserved up front: a push that reallocates makes the buffer pointer a case
+            // split over all the reallocation sites, which explodes the formula
+            memory: Vec::with_capacity(8),
             registers,
             xmm_registers: xmm,
             rflags: kani::any::<u64>(),
@@ -126,8 +128,34 @@ pub(crate) fn mk_ax_n(nxmm: usize) -> Axecutor {
             executed_instructions_count: 0,
             max_instructions: None,
             syscalls: SyscallState::default(),
-            call_stack: Vec::new(),
-            trace: Vec::new(),
+            call_stack: Vec::with_capacity(8),
+            trace: Vec::with_capacity(8),
+        },
+    }
+}
+
+/// A machine with empty register maps (for harnesses that never touch registers).
+pub(crate) fn mk_ax_bare() -> Axecutor {
+    Axecutor {
+        stack_top: 0,
+        code_end_addr: 0,
+        hooks: HookProcessor::default(),
+        symbol_table: HashMap::new(),
+        state: MachineState {
+            // capacity reserved up front: a push that reallocates makes the buffer pointer a case
+            // split over all the reallocation sites, which explodes the formula
+            memory: Vec::with_capacity(8),
+            registers: HashMap::new(),
+            xmm_registers: HashMap::new(),
+            rflags: 0,
+            fs: 0,
+            gs: 0,
+            finished: false,
+            executed_instructions_count: 0,
+            max_instructions: None,
+            syscalls: SyscallState::default(),
+            call_stack: Vec::with_capacity(8),
+            trace: Vec::with_capacity(8),
         },
     }
 }
@@ -166,6 +194,9 @@ pub(crate) fn stub_format(_a: std::fmt::Arguments<'_>) -> String {
 }
 pub(crate) fn stub_mem_hints(_ax: &Axecutor, _a: u64, _l: u64, _o: String) -> AxError {
     AxError::from("mem")
+}
+pub(crate) fn stub_lower(_s: &str) -> String {
+    String::new()
 }
 pub(crate) fn stub_instr_fmt(
     _i: &Instruction,
